@@ -257,3 +257,8 @@ def code_size(code):
     if code == 7:
         return 8
     return -1
+
+
+def name_taken(lf, n):
+    """n is the dataset name of one of the (two) channels of the logical file model"""
+    return n == lf.channels[0].dataset_name or n == lf.channels[1].dataset_name
